@@ -127,6 +127,10 @@ CORPUS += [
 
 CORPUS += [
     # ---------------------------------------------------------------- C06
+    V("C06", "cvrp-checker-head-unchecked", "rl4co/envs/routing/cvrp/env.py", ').all() and (sorted_pi[:, :-graph_size] == 0).all(), "Invalid tour"', ').all(), "Invalid tour"', 'C06.m'),
+    V("C06", "pctsp-checker-count-incl-depot", "rl4co/envs/routing/pctsp/env.py", '== (td["locs"].size(-2) - 1)', '== td["real_prize"].size(-1)', 'C06.n'),
+    V("C06", "eq-pctsp-checker-count-from-prize", "rl4co/envs/routing/pctsp/env.py", '== (td["locs"].size(-2) - 1)', '== td["real_prize"].size(-1) - 1', None),
+    V("C06", "cvrptw-checker-wait-not-carried", "rl4co/envs/routing/cvrptw/env.py", '            curr_time = curr_time + gather_by_index(td["durations"], next_node).reshape(\n                [batch_size, 1]\n            )', '            curr_time = (curr_time_arr + dist) + gather_by_index(td["durations"], next_node).reshape(\n                [batch_size, 1]\n            )', 'C06'),
     V("C06", "cvrp-eps-sign-flip", R + "cvrp/env.py", 'used_cap <= td["vehicle_capacity"] + 1e-5', 'used_cap <= td["vehicle_capacity"] - 1e-5', "C06.b"),
     V("C06", "cvrp-checker-strict", R + "cvrp/env.py", 'used_cap <= td["vehicle_capacity"] + 1e-5', 'used_cap < td["vehicle_capacity"] + 1e-5', "C06.b"),
     V("C06", "cvrp-checker-huge-tol", R + "cvrp/env.py", 'used_cap <= td["vehicle_capacity"] + 1e-5', 'used_cap <= td["vehicle_capacity"] + 0.5', "C06.b"),
